@@ -12,987 +12,896 @@ Definition show_fres (r : fres) : string :=
   end.
 Definition check (rs : list rune) : string := digest (show_fres (format_res rs)).
 Definition full (rs : list rune) : string := show_fres (format_res rs).
-Eval vm_compute in ("<<<M1574>>>" ++ check (runes_of_ascii "
-
-  packet //	t
-
-packetx
-	{  }
-	root	packet
-repeatCount
-	    // trailing space 
-  // 50% %s
-    {  int16 rootA	@lengthOf( 	 // " ++ [27880; 37322]%N ++ runes_of_ascii "
-    len
-
-) 
-`` 
-
-    // " ++ [128512]%N ++ runes_of_ascii " emoji
-    // trailing space 
-  	, i32 A	@calculatedFrom( ""a\\""
-
-    )
-
-,
-i16  asx  @calculatedFrom(
-
-    ""x y""
-), repeat
-
-char[]
-
-    x 
-,
-} 
-root
-
-    packet lengthOf	//x
-	  {  @leftPad(
-'0'
-    ) @calculatedFrom( ""\" ++ [233]%N ++ runes_of_ascii """
-
-    ) @lengthOf(	// @lengthOf(
-
-Z9_)
-
-repeat
-	char[]As , @rightPad	(	' '	// @lengthOf(
-  )	repeat 
-zchar 
-,
-
-    match
-	a1
-	as  pack
-
-{ 
-[  3
-
-    ]
-	:
-	lengthOf,
-
-    [ 007 ,
-    ""x y""
-
-]
-    :A
-	, }
-
-, 
-repeat chars
-
-    {
-
-    char[
-4294967296
-] 	 //
-
-  body,
-
-body@lengthOf(
-	pack
-	)
-	,
-
-    string  Z9_  , }
-, @leftPad ( ' '	)  zchar[ 	 // packet A { u8 x, }
-    	255
-
-    ]
-
-    Header
-
-    ,
-
-@tag( 
-0
-//	t
-	// 50% %s
-
-  )repeat
-    char[ 00
-] 
-	// " ++ [27880; 37322]%N ++ runes_of_ascii "
-    	roots
-	,  match
-crc  as
-    body {
-""`tick`"" :  //	t
-    a1
-} 
-,	@tag( 
-1 )
-
-    char[]
-rootA @calculatedFrom(
-
-""" ++ [233]%N ++ runes_of_ascii "t" ++ [233]%N ++ runes_of_ascii """
-// `tick` ""quote"" 'q'
-    //
-  )	// a // b
-  , } packet
-pack 
-{match
-
-    Packet
-
-as	/// triple
-    repeatCount { 
-    //x
-""a	b""	:
-pack	, }
-    ,
-
-packetx  packetx
-
-,  //	t
-	  match
-// c
-  	o as Packet {	// a // b
-    	0123456789  :lengthOf
-,  // `tick` ""quote"" 'q'
-	""CRC32"" :i64_
-,
-
-    1
-
-    : asx
-,
-""\" ++ [233]%N ++ runes_of_ascii """ : 
-  // packet A { u8 x, }
-
-	o 
-,
-""a	b""
-    :
-u128 , ""// no comment""
-	: Packet
-
-    ,  
-      // `tick` ""quote"" 'q'
-  	}  ,
-@leftPad( '0')@calculatedFrom(  """ ++ [128512]%N ++ runes_of_ascii """ )
-
-A
-	@calculatedFrom(
-    ""{,}"" )`u8 x,` 
-,
-
-@tag( 
-255 ) float32
-    MetaDataX
-    ,char[] u128 
-@lengthOf(
-    zchar
-)
-	,match	x  as
-	_x {  00
-:
-    A , }  ,
-
-//	t
-}")).
-Eval vm_compute in ("<<<M381>>>" ++ check (runes_of_ascii "options {
+Eval vm_compute in ("<<<M1499>>>" ++ check (runes_of_ascii "// top
+options {
+    // c1
+    LittleEndian = true;// c5
     StringPrefixLenType = u16;
-    ArrayPrefixLenType = u16;
-}
-
-packet SampleBinary {
-    uint16 MsgType `" ++ [28040; 24687; 31867; 22411]%N ++ runes_of_ascii "`,
-    u16 BodyLenght @lengthOf(Body) `" ++ [28040; 24687; 20307; 38271; 24230]%N ++ runes_of_ascii "`,
-    match MsgType as Body {
-        1 : Logon,
-        2 : Logout,
-        3 : Heartbeat,
-        4 : RiskControlRequest,
-        5 : RiskControlResponse,
-    },
-    @calculatedFrom(""CRC32"")
-    u32 Ckecksum `" ++ [26657; 39564; 21644]%N ++ runes_of_ascii "`,
-}
-
-packet Logon {
-    @leftPad('0')
-    char[10] UserName `" ++ [29992; 25143; 21517]%N ++ runes_of_ascii "`,
-    string Password `" ++ [23494; 30721]%N ++ runes_of_ascii "`,
-    uint64 ClientId `" ++ [23458; 25143; 31471]%N ++ runes_of_ascii "ID`,
-    u16 HeartbeatInterval `" ++ [24515; 36339; 38388; 38548]%N ++ runes_of_ascii "`,
-}
-
-packet Logout {
-    @rightPad('0')
-    char[10] UserName `" ++ [29992; 25143; 21517]%N ++ runes_of_ascii "`,
-    uint64 ClientId `" ++ [23458; 25143; 31471]%N ++ runes_of_ascii "ID`,
-}
-
-packet Heartbeat {
-}
-
-packet RiskControlRequest {
-    string UniqueOrderId `" ++ [21807; 19968; 35746; 21333; 21495]%N ++ runes_of_ascii "`,
-    char[16] ClOrdID `" ++ [23458; 25143; 35746; 21333; 21495]%N ++ runes_of_ascii "`,
-    char[3] MarketID `" ++ [24066; 22330]%N ++ runes_of_ascii "id`,
-    char[12] SecurityID `" ++ [35777; 21048; 20195; 30721]%N ++ runes_of_ascii "`,
-    char Side `" ++ [20080; 21334; 26041; 21521]%N ++ runes_of_ascii "`,
-    char OrderType `" ++ [35746; 21333; 31867; 22411]%N ++ runes_of_ascii "`,
-    u64 Price `" ++ [20215; 26684]%N ++ runes_of_ascii "`,
-    u32 Qty `" ++ [25968; 37327]%N ++ runes_of_ascii "`,
-    repeat string ExtraInfo `" ++ [38468; 21152; 20449; 24687]%N ++ runes_of_ascii "`,
-    repeat SubOrder {
-        char[16] ClOrdID `" ++ [23376; 35746; 21333; 21495]%N ++ runes_of_ascii "`,
-        u64 Price `" ++ [23376; 35746; 21333; 20215; 26684]%N ++ runes_of_ascii "`,
-        u32 Qty `" ++ [23376; 35746; 21333; 25968; 37327]%N ++ runes_of_ascii "`,
-    },
-}
-
-packet RiskControlResponse {
-    string UniqueOrderId `" ++ [21807; 19968; 35746; 21333; 21495]%N ++ runes_of_ascii "`,
-    i32 Status `" ++ [29366; 24577]%N ++ runes_of_ascii "`,
-    string Msg `" ++ [32467; 26524; 20449; 24687]%N ++ runes_of_ascii "`,
-    repeat Detail,
-}
-
-packet Detail {
-    string RuleName `" ++ [35268; 21017; 21517; 31216]%N ++ runes_of_ascii "`,
-    u16 Code `" ++ [21407; 22240; 20195; 30721]%N ++ runes_of_ascii "`,
-}")).
-Eval vm_compute in ("<<<M259>>>" ++ check (runes_of_ascii "root packet u8x {
-    body@lengthOf( i64_ )
-`` , @lengthOf(Foo )
-//x
-// `tick` ""quote"" 'q'
-string_@lengthOf(	int ), @lengthOf(
-rootA//	t
-) @tag( 255 // c
-)
-    match Logon  as roots { 1 : x_y_z, } , }
-    packet len {
-@tag( 0123456789
-)  @leftPad ( '\x00' ) i8i8 {
-//x
-// @lengthOf(
-len `u8 x,` , } , @tag(
-    0123456789// 50% %s
-) u8x A, char[ 007 ]
-    int
-    , @leftPad (
-'\x00')
-float64 len
-    `100% of %d`, }
-    packet crc {
-// `tick` ""quote"" 'q'
-// `tick` ""quote"" 'q'
-match
-calculatedFrom as leftPad { [ // packet A { u8 x, }
-""" ++ [233]%N ++ runes_of_ascii "t" ++ [233]%N ++ runes_of_ascii """ ]  :Foo ""1"" :
-Packet , 1 : stringy [	4294967296
-    // c
-    ,
-""a	b"" ]: leftPad, [ """ ++ [233]%N ++ runes_of_ascii "t" ++ [233]%N ++ runes_of_ascii """,
-""""
-,4294967296 , 0123456789 ,	4294967296  ,
-    ""CRC32"" , 0123456789  ,"""" ] : rootA
-} ,  @rightPad (
-    ) roots {
-As //x
-, repeat
-zchar[1 ]falsey, repeat char[] repeatCount, } //	t
-, roots  `a\`, match
-    charz
-    as i8i8  {  [ ""\" ++ [233]%N ++ runes_of_ascii """, """ ++ [233]%N ++ runes_of_ascii "t" ++ [233]%N ++ runes_of_ascii """ ] :
-// c
-// @lengthOf(
-o // @lengthOf(
-, 42
-    : matchKey ,
-    00 : body,
-""a\\""
-    :
-    rootA
-,} ,
-    }")).
-Eval vm_compute in ("<<<M1509>>>" ++ check (runes_of_ascii "// top
-	options	// c0
-
-{
-    // c1
-
-	LittleEndian  // c2a
-      // c2b
-    = 
-true // c4a
-    // c4b
-; // c5a
-    // c5b
-} packet  Sub
-
-    {
-    u8
-    // c10
-  a
-	// c11
-,
-
-@calculatedFrom( ""CRC16"" // c14a
-	  // c14b
-
-)
-// c15
-    uint64  
-      // c16
-    SubSum
-,// c18
-
-  }root  // c20
-
-packet 
-
-// c21
-Frame 
-
-    // c22
-	{  // c23
-      u16 
-MsgType// c25
-	  , 	 // c26a
-// c26b
-      u16	// c27a
-    // c27b
-	BodyLen 
-      // c28
-
-	@lengthOf( 
-// c29
-  	Body  // c30a
-  	// c30b
-  )
-// c31
-, 
-	// c32
-	Sub // c33
-
-	Body// c34a
-// c34b
-	,// c35a
-      // c35b
-	string // c36a
-
-  // c36b
-  note	// c37a
-  // c37b
-    ,  // c38a
-// c38b
-	@calculatedFrom( // c39a
-// c39b
-  ""CRC16"" // c40a
-    // c40b
-
-)  // c41
-uint64	// c42a
-		// c42b
-  Checksum// c43a
-// c43b
-    ,
-    // c44
-u8	// c45a
-	// c45b
-    	tail  // c46a
-// c46b
-  ,  // c47a
-	  // c47b
-    } 
-    // c48
-")).
-Eval vm_compute in ("<<<M1380>>>" ++ check (runes_of_ascii "options {
-    ArrayPrefixLenType = u32;
-    FixedStringPadFromLeft = false;
-    FixedStringPadChar = '0';
-}
-packet Trade {
-    repeat InVenue78 {
-        u16 tag7,
-        repeat InLastpx9 {
-            u8 pad0,
-        },
-        int64 Tail,
-        repeat InQty37 {
-            char[2] OrderId,
-            zchar[6] lastPx,
-            int64 Qty,
-        },
-        uint8 Side2,
-    },
-}
-packet Logon {
-    repeat string venue,
-    @rightPad('\x00') char[3] sym,
-    zchar[9] count,
-    zchar[7] f1,
-    Trade,
-}
-packet Logout {
-}
-root packet Reject {
-    int32 sym,
-    u8 Px,
-    u32 Tail @lengthOf(Body),
-    match Px as Body {
-        184 : Trade,
-        173 : Logon,
-        12 : Logout,
-    },
-    u32 tag7 @calculatedFrom(""CRC32""),
-}
-")).
-Eval vm_compute in ("<<<M1742>>>" ++ check (runes_of_ascii "packet u128 {
-    string a1,
-    x,
-    @calculatedFrom(""\n"")
-    @tag(0)
-    @tag(42)
-    i8 Packet @calculatedFrom(""a	b"") `a\`,
-    @calculatedFrom(""\n"")
-    repeat string uint8x `{ , }`,
-    char[] string_,
-}
-
-packet repeatCount {
-    @leftPad( '\x00'
-        )
-    o @calculatedFrom(""abc"") `u8 x,`,
-    char[1] repeatCount,
-    char[] x,
-    @tag(007)
-    repeat i16 u8x `a\`,
-    @lengthOf(u)
-    repeat uint16 u128,
-    repeat uint8 repeatCount,
-    repeat stringy {
-        char[10] options1,
-        int `doc`,
-    },
-}
-
-MetaData BodyLength {
-    i64 x_y_z `" ++ [233]%N ++ runes_of_ascii "`,
-    u64 x `
-        `,
-    asx asx,
-    char[3] leftPad,
-}
-
-MetaData zchar {
-}")).
-Eval vm_compute in ("<<<M1136>>>" ++ check (runes_of_ascii "// top
-packet
-    // c0
-_x
-    // c1
-{
-    // c2
-match
-    // c3
-Foo
-    // c4
-as
-    // c5
-Z9_
-    // c6
-{
-    // c7
-""a	b""
-    // c8
-:
     // c9
-Pad
-    // c10
-,
-    // c11
-}
-    // c12
-,
-    // c13
-repeat
-    // c14
-x
-    // c15
-`// not a comment`
-    // c16
-,
-    // c17
-@rightPad
-    // c18
-(
-    // c19
-' '
-    // c20
-)
-    // c21
-@calculatedFrom(
-    // c22
-""a\\""
-    // c23
-)
-    // c24
-metadata
+    ArrayPrefixLenType = u8;// c13
+    FixedStringPadChar = ' ';// c17
+}// c18a
+
+// c18b
+packet Ack {
+    @leftPad(' ')
     // c25
-MetaDataX
-    // c26
-,
-    // c27
-@tag(
-    // c28
-0
-    // c29
-)
-    // c30
-Logon
-    // c31
-int
-    // c32
-`two words`
-    // c33
-,
-    // c34
-}
-    // c35
-")).
-Eval vm_compute in ("<<<M142>>>" ++ check (runes_of_ascii "packet Header{ uint16 As @calculatedFrom(
-    ""CRC32"" )
-,float
-`doc`,char[	3
-] crc , //x
-repeat
-u32
-packetx , a1 @calculatedFrom(	""`tick`"") ,
-repeat rootA
-{
-    u8x
-`crlf
-line`
-, string x, }
-    , roots { char[	65535
-]len `100% of %d` // " ++ [27880; 37322]%N ++ runes_of_ascii "
-,u32	x_y_z
-,}
-    // @lengthOf(
-    ,
-    a1 { match zchar
-as
-len  {
-    ""a\""b"" : roots , }	,uint32
-i64_ `// not a comment`
-,
-    repeat	x_y_z {
-u@calculatedFrom("""") , Packet
-    { char[ 00 ]
-msg_type , } ,
-} ,} ,options1 i8i8
-, string calculatedFrom, }
-
-")).
-Eval vm_compute in ("<<<M1369>>>" ++ check (runes_of_ascii "options {
-    LittleEndian = true;
-    ArrayPrefixLenType = u32;
-    FixedStringPadChar = ' ';
-}
-packet Order {
-    char[5] seqNo,
-    uint8 Px,
-}
-packet Logon {
-    @rightPad('\x00') char[8] Flags,
-    zchar[3] count,
-    repeat Order,
-}
-root packet Party {
-    repeat Logon,
-    repeat char[1] x,
-    u32 price,
-    u32 Side2 @lengthOf(Body),
-    match price as Body {
-        49 : Order,
-        196 : Logon,
+    char[5] lastPx,
+    zchar[4] count,// c35a
+    // c35b
+    repeat InVenue30 {
+        char[9] Side2,
+        char[12] venue,// c48
     },
-    u32 f1 @calculatedFrom(""CRC32""),
+    // c50
+}// c51a
+
+// c51b
+packet Order {
+    // c54a
+    // c54b
+    int16 Note,// c57a
+    // c57b
+    repeat InAcct28 {
+        // c60
+        InSym3 {
+            // c62
+            Ack,
+            // c64
+            char[4] lastPx,
+            char[1] venue,// c74
+            f32 Ref,// c77
+        },
+        repeat InTag729 {
+            // c82
+            char[3] Side2,
+            // c87
+            uint64 Acct,// c90a
+            // c90b
+            char[] price,
+            zchar[9] Note,
+            // c98
+            zchar[9] venue,
+            // c103
+        },
+        char[] count,// c108a
+        // c108b
+        Ack,
+        // c110
+        char[] Px,// c113
+    },// c115a
+    // c115b
+    u8 f1,
+    // c118
+    Ack,// c120a
+    // c120b
+}// c121a
+
+// c121b
+packet Fill {
+    zchar[7] x,// c129a
+    // c129b
+    Order,// c131a
+    // c131b
+    @leftPad(' ')
+    char[9] venue,
+    // c140
+    string count,
+    char[] Flags,// c146a
+    // c146b
+}// c147
+
+packet Logon {
+    // c150
+}// c151a
+
+// c151b
+packet Reject {
+    Order,
+    // c156
+    char[] sym,// c159a
+    // c159b
+}// c160
+
+root packet Quote {
+    string price,
+    // c167
+    i64 Flags,// c170a
+    // c170b
+    repeat Fill,// c173
+    zchar[9] x,// c178
+    f32 lastPx,// c181a
+    // c181b
+    repeat Ack,
+    // c184
 }
-")).
-Eval vm_compute in ("<<<M346>>>" ++ check (runes_of_ascii "MetaData body { //x
-asx As , Foo calculatedFrom`` ,
-    packetx
-pack `{ , }`, // packet A { u8 x, }
-u8x  falsey`say ""hi""` , float32
-float
-    `line1
-line2`, char[] u
-`it's`
-, } packet
-    // a // b
-    asx{uint32 pack
-@calculatedFrom(
-    ""CRC32""
-    ) `line1
-line2` ,char[ 65535 /// triple
-] roots // @lengthOf(
-,Z9_
-zchar // trailing space 
-, repeat uint64 // 50% %s
-float `line1
-line2`
-,
-} root packet options1 { }
-")).
-Eval vm_compute in ("<<<M1489>>>" ++ check (runes_of_ascii "options 
-{
-Logon
-
-    = '\x00'	; Foo
-=  ""// no comment""  x = 
-""a\""b""
-    }packet rootA { @tag(007
-    )	@calculatedFrom(
-	""a\\"" ) // `tick` ""quote"" 'q'
-
-  u
-{
-
-    match
-o
-
-    as	Foo { 255
-
-:
-asx , ""a\""b""
-    :
-	zchar 
-, [
-
-    ""a	b""
-,
-
-""{,}"" ,  10 ]: _x} ,	// a // b
-
-char[ 42] As	`a\`
-
-    ,  int32
-i64_
-@calculatedFrom(	""" ++ [28040; 24687]%N ++ runes_of_ascii """ )	// " ++ [27880; 37322]%N ++ runes_of_ascii "
-  ,
-
-    repeat chars  packetx, }  ,
-} ")).
-Eval vm_compute in ("<<<M168>>>" ++ check (runes_of_ascii "MetaData o//
-{MetaDataX  As `crlf
-line` ,string_	T , zchar[
-1 ] Header , //	t
-} packet packetx { // " ++ [128512]%N ++ runes_of_ascii " emoji
-repeat //	t
-char[ 10
+// c185")).
+Eval vm_compute in ("<<<M264>>>" ++ check (runes_of_ascii "root packet u8x
+    {
+    // trailing space 
+    repeat u64 Pad
+    , i64_ @calculatedFrom(
+""x y"" /// triple
+) `100% of %d`
 // @lengthOf(
-//
-] crc
-`a\` ,  @tag( 42 ) repeat char[]asx `// not a comment` , zchar[
+// a // b
+, @calculatedFrom(
+""a	b"" ) @lengthOf( Header ) @lengthOf( zchar ) i32
+    A @lengthOf( falsey)//x
+,	repeat zchar[// a // b
+10 ]
+f32a  `
+` ,  repeat
+    f64
+rootA
+    `line1
+line2`
+, // packet A { u8 x, }
+match string_
+    as
+    o { 65535 : // a // b
+options1 ,
 // a // b
 // " ++ [128512]%N ++ runes_of_ascii " emoji
-007 ]
-len @lengthOf( u )`a\` ,@leftPad ( '\x00' ) @tag(	3 )@calculatedFrom( ""a\""b"") char[ //x
-10] As
-`
-`  , }
-")).
-Eval vm_compute in ("<<<M1329>>>" ++ check (runes_of_ascii "// top
-packet
-    // c0
-FooBar // c1
-{
-    // c2
-u8 // c3a
-  // c3b
-a
-    // c4
-, // c5
-}
-    // c6
-packet // c7
-foo_bar // c8a
-  // c8b
-{ // c9
-u16 b // c11a
-  // c11b
-, // c12a
-  // c12b
-}
-    // c13
-root
-    // c14
-packet
-    // c15
-R // c16
-{ FooBar // c18
-, // c19a
-  // c19b
-foo_bar // c20
-, // c21
-} // c22
-")).
-Eval vm_compute in ("<<<M1560>>>" ++ check (runes_of_ascii "MetaData u {
-    f64 roots,
-    zchar trueish,
-}
-
-root packet Foo {
-    packetx,
-    repeat zchar[3] msg_type `
-        `,
-}
-
-root packet Header {
-    match u8x as options1 {
-        4294967296 : metadata,
-        // `tick` ""quote"" 'q'
-        4294967296 : float,
-    },//x
-}")).
-Eval vm_compute in ("<<<M210>>>" ++ check (runes_of_ascii "packet x  {/// triple
-repeat// c
-int ,}
-root
-packet
-A
-{i8i8 Packet,}
-packet
-    // `tick` ""quote"" 'q'
-    pack {@lengthOf( msg_type
-)
-    // packet A { u8 x, }
-    f32a As `it's`
-, } root packet f32a
-{ i64_
-@lengthOf(// 50% %s
-matchKey
-)	`doc` ,
-}
-// " ++ [27880; 37322]%N ++ runes_of_ascii "
-")).
-Eval vm_compute in ("<<<M1885>>>" ++ check (runes_of_ascii "MetaData calculatedFrom {
-    /// triple
-    matchKey packetx,
-    float32 u128,// `tick` ""quote"" 'q'
-}
-
-MetaData uint8x {
-    //	t
-    zchar[65535] As ``,
-    char[255] T `doc`,
-    zchar[255] int,
-    float64 i64_ `tab	here`,
-    char[] len,
-}")).
-Eval vm_compute in ("<<<M517>>>" ++ check (runes_of_ascii "packet
-    asx { @calculatedFrom(
-""""  ) @tag( 255 )repeat
-// packet A { u8 x, }
-// trailing space 
-int16 u8x
-,
-@tag(
-    //
-    007 )
-    @tag( 0
-    /// triple
-    ) @tag( 1) u
-    @lengthOf( T ), ,
-// `tick` ""quote"" 'q'
-//x
-} // " ++ [128512]%N ++ runes_of_ascii " emoji")).
-Eval vm_compute in ("<<<M444>>>" ++ check (runes_of_ascii "packet
-    asx { @calculatedFrom(
-""""  ) @tag( 255 )repeat
-// packet A { u8 x, }
-// trailing space 
-int16 f32
-,
-@tag(
-    //
-    007 )
-    @tag( 0
-    /// triple
-    ) @tag( 1) u
-    @lengthOf( T ),
-// `tick` ""quote"" 'q'
-//x
-} // " ++ [128512]%N ++ runes_of_ascii " emoji")).
-Eval vm_compute in ("<<<M476>>>" ++ check (runes_of_ascii "packet
-    asx { @calculatedFrom(
-""""  ) @tag( 255 )repeat
-// packet A { u8 x, }
-// trailing space 
-int16 u8x
-,
-@tag(
-    //
-    007 )
-    @tag( 0
-    /// triple
-     @tag( 1) u
-    @lengthOf( T ),
-// `tick` ""quote"" 'q'
-//x
-} // " ++ [128512]%N ++ runes_of_ascii " emoji")).
-Eval vm_compute in ("<<<M1756>>>" ++ check (runes_of_ascii "packet x {
-    /// triple
-    repeat int,
-}
-
-root packet A {
-    i8i8 Packet,
-}
-
-packet pack {
-    @lengthOf(msg_type)
-    // packet A { u8 x, }
-    f32a As `it's`,
-}
-
-root packet f32a {
-    i64_ @lengthOf(matchKey) `doc`,
-}
-// " ++ [27880; 37322]%N)).
-Eval vm_compute in ("<<<M1654>>>" ++ check (runes_of_ascii "packet stringy {
-    //x
-    repeat char[0123456789] trueish,
-    matchKey `100% of %d`,
-}
-
-options {
-    x_y_z = false;// " ++ [128512]%N ++ runes_of_ascii " emoji
-    Z9_ = 4294967296
-    chars = ""packet"";
-    Packet = ""it's"";// trailing space 
-}")).
-Eval vm_compute in ("<<<M1792>>>" ++ check (runes_of_ascii "
-MetaData
-Header 
-
-    // " ++ [128512]%N ++ runes_of_ascii " emoji
-	{  trueish	Pad
-
-    ,} 
-MetaData
-	Z9_
-{
-    char[] metadata,  Header
-A 
-``	,
-uint32 
-packetx, 
-int16 uint8x
-, 
-Header	// packet A { u8 x, }
-leftPad , 
-}
-")).
-Eval vm_compute in ("<<<M592>>>" ++ check (runes_of_ascii "MetaData u
-    { } MetaData o
-{ float uint8x
-`100% of %d` `100% of %d` ,repeatCount u8x, string_ leftPad
-, i32
-    Foo , int64 x `two words` , calculatedFrom
-stringy `a\` ,
-}
-")).
-Eval vm_compute in ("<<<M607>>>" ++ check (runes_of_ascii "MetaData u
-    { } MetaData o
-{ float uint8x
-`100% of %d` ,repeatCount u8x u8x, string_ leftPad
-, i32
-    Foo , int64 x `two words` , calculatedFrom
-stringy `a\` ,
-}
-")).
-Eval vm_compute in ("<<<M692>>>" ++ check (runes_of_ascii "MetaData u
-    { } MetaData o
-{ float " ++ [8232]%N ++ runes_of_ascii " uint8x
-`100% of %d` ,repeatCount u8x, string_ leftPad
-, i32
-    Foo , int64 x `two words` , calculatedFrom
-stringy `a\` ,
-}
-")).
-Eval vm_compute in ("<<<M598>>>" ++ check (runes_of_ascii "MetaData u
-    { } MetaData o
-{ float uint8x
-`100% of %d` repeatCount, u8x, string_ leftPad
-, i32
-    Foo , int64 x `two words` , calculatedFrom
-stringy `a\` ,
-}
-")).
-Eval vm_compute in ("<<<M626>>>" ++ check (runes_of_ascii "MetaData u
-    { } MetaData o
-{ float uint8x
-`100% of %d` ,repeatCount u8x, string_ leftPad
- i32
-    Foo , int64 x `two words` , calculatedFrom
-stringy `a\` ,
-}
-")).
-Eval vm_compute in ("<<<M366>>>" ++ check (runes_of_ascii "packet  T
-    { @calculatedFrom( ""1"" /// triple
-)@tag( 0
-    ) crc {
-int16 falsey
-,/// triple
-int64
-i8i8 , }	,
-    Header , trueish
-, }
-// packet A { u8 x, }
-")).
-Eval vm_compute in ("<<<M591>>>" ++ check (runes_of_ascii "MetaData u
-    { } MetaData o
-{ float uint8x
- ,repeatCount u8x, string_ leftPad
-, i32
-    Foo , int64 x `two words` , calculatedFrom
-stringy `a\` ,
-}
-")).
-Eval vm_compute in ("<<<M225>>>" ++ check (runes_of_ascii "options {  i8i8= uint8 pack =false T  = false ; msg_type
-// `tick` ""quote"" 'q'
+""// no comment"": packetx ""\" ++ [233]%N ++ runes_of_ascii """
 // c
-= 0 falsey = char[ 42 ]// trailing space 
-; }
-// " ++ [128512]%N ++ runes_of_ascii " emoji
+//x
+: lengthOf, 65535 :
+BodyLength ,
+""packet"":
+a1
+, }
+    , @tag(
+4294967296) @tag( 7
+    )@rightPad (	'\x00'
+    )
+    repeat uint64 i8i8 , char[
+    42 ]string_
+`// not a comment` , } MetaData pack
+    {x o
+    `two words` , x As,uint64 BodyLength
+    `// not a comment`,x a1`` , T
+int
+`it's` ,
+} MetaData falsey
+// a // b
+// 50% %s
+{ Header BodyLength `` , }root packet trueish {i16 // @lengthOf(
+trueish	@calculatedFrom( ""`tick`"")`line1
+line2`
+, f64 As ,string T	@lengthOf(
+    pack )	`100% of %d` , @lengthOf(
+    matchKey )repeat // " ++ [128512]%N ++ runes_of_ascii " emoji
+char[ 00 ]
+    lengthOf
+// packet A { u8 x, }
+// c
+`line1
+line2` , zchar[ 3 ]_x @calculatedFrom(
+""`tick`"" )
+    // " ++ [128512]%N ++ runes_of_ascii " emoji
+    ,
+// " ++ [27880; 37322]%N ++ runes_of_ascii "
+// trailing space 
+@tag( 00) //	t
+zchar[4294967296
+]  msg_type , repeat body,
+Logon , @tag( 1
+    ) @calculatedFrom( ""packet"")
+zchar[ 3 ] Z9_ , }
 ")).
-Eval vm_compute in ("<<<M1702>>>" ++ check (runes_of_ascii "
-
-  packet A
-	{match k
-as
-	n
-
-{ [1,""bb""  ,
-	007
-    , ""d"",
-
-    5,
-
-    ""f""
-    ,  7,
-    ""h""
-, 9 ,  ""j"" 
+Eval vm_compute in ("<<<M103>>>" ++ check (runes_of_ascii "packet x { }
+options
+/// triple
+// c
+{ Packet =string Packet =
+    // a // b
+    ' 'zchar = false ;
+matchKey
+    =
+    false }	packet
+f32a
+// packet A { u8 x, }
+// " ++ [128512]%N ++ runes_of_ascii " emoji
+{ int64 options1@calculatedFrom(
+    ""packet"" ) `// not a comment` ,
+Z9_ { charz	{ match	BodyLength	as trueish{ ""\" ++ [233]%N ++ runes_of_ascii """ :
+    charz , 65535: roots,
+    [
+4294967296 //x
+, ""a\""b""
+    // @lengthOf(
+    , ""abc"" ]:
+    f32a ,	""\" ++ [233]%N ++ runes_of_ascii """	:
+//x
+// " ++ [128512]%N ++ runes_of_ascii " emoji
+int
+    // packet A { u8 x, }
+    ""x y"" //
+: u8x }, repeat int8 u , repeat	_x	{ msg_type `100% of %d` ,
+    metadata
+`crlf
+line`  ,
+f32
+roots  , char[]f32a @lengthOf( Pad )
+,// c
+}
+,
+} ,
+    },match
+    T
+as  calculatedFrom {
+[0,""" ++ [128512]%N ++ runes_of_ascii """ ]
+:// @lengthOf(
+Pad// packet A { u8 x, }
+[""""  , ""x y""
+    , """ ++ [233]%N ++ runes_of_ascii "t" ++ [233]%N ++ runes_of_ascii """ , ""a\""b""
+    , 4294967296 , """ ++ [28040; 24687]%N ++ runes_of_ascii """  ]:o
+[ 42
+    ]//
+: float , }
+,  match zchar as _x	{
+    ""`tick`""
+    // " ++ [27880; 37322]%N ++ runes_of_ascii "
+    : packetx , },
+    // 50% %s
+    repeat
+// c
+// `tick` ""quote"" 'q'
+As
+    // " ++ [27880; 37322]%N ++ runes_of_ascii "
+    { int @lengthOf( msg_type	)
+    , i64 roots`line1
+line2`
+    // `tick` ""quote"" 'q'
+    , // c
+repeat u16 Packet `" ++ [233]%N ++ runes_of_ascii "`
+, f64 charz	, } , int32	i8i8 `say ""hi""` ,
+}")).
+Eval vm_compute in ("<<<M92>>>" ++ check (runes_of_ascii "packet As
+{i32 x_y_z
+, match
+    /// triple
+    As  as leftPad{
+    ""// no comment"" :// 50% %s
+repeatCount ,// 50% %s
+[ 3,
+    3
+    ,
+    """ ++ [233]%N ++ runes_of_ascii "t" ++ [233]%N ++ runes_of_ascii """ ]: charz
+,
+""// no comment"" : f32a 10 :u,} , uint64 len
+    //
+    , x
+    , @lengthOf(float /// triple
+)	repeat i8i8 { repeat pack,
+    float32
+Packet,
+repeat T Z9_ ,// trailing space 
+i8i8 ,
+}
+, char
+rootA
+,
+    // c
+    float , _x // " ++ [128512]%N ++ runes_of_ascii " emoji
+@calculatedFrom( ""x y"") , }
+MetaData//
+Z9_	{u8x //x
+BodyLength, uint32
+x //	t
+, a1 Header ,  calculatedFrom Pad`a\` //
+, char  falsey`it's`, rootA Foo ,
+    } root packet repeatCount {@leftPad  ( ' ')
+zchar `{ , }` ,
+@tag(42 )
+match tag as Logon { 007 : float ,
+[1
+    ] : Packet ,  [
+// `tick` ""quote"" 'q'
+// packet A { u8 x, }
+0 ] :
+    repeatCount
+, [  ""a	b""	, 10 ,""packet""	] : o
+    },
+    f32a`100% of %d` ,// @lengthOf(
+@calculatedFrom(// c
+""\n"" ) @lengthOf(
+    body) repeat
+    char[] calculatedFrom ``// " ++ [128512]%N ++ runes_of_ascii " emoji
+,	pack,
+}
+")).
+Eval vm_compute in ("<<<M1395>>>" ++ check (runes_of_ascii "// top
+options // c0
+{
+    // c1
+LittleEndian // c2a
+  // c2b
+= true // c4a
+  // c4b
+; // c5a
+  // c5b
+} packet Sub { u8
+    // c10
+a
+    // c11
+, @calculatedFrom( ""CRC16"" // c14a
+  // c14b
+)
+    // c15
+uint64
+    // c16
+SubSum , // c18
+} root // c20
+packet
+    // c21
+Frame
+    // c22
+{ // c23
+u16 MsgType // c25
+, // c26a
+  // c26b
+u16 // c27a
+  // c27b
+BodyLen
+    // c28
+@lengthOf(
+    // c29
+Body // c30a
+  // c30b
+)
+    // c31
+,
+    // c32
+Sub // c33
+Body // c34a
+  // c34b
+, // c35a
+  // c35b
+string // c36a
+  // c36b
+note // c37a
+  // c37b
+, // c38a
+  // c38b
+@calculatedFrom( // c39a
+  // c39b
+""CRC16"" // c40a
+  // c40b
+) // c41
+uint64 // c42a
+  // c42b
+Checksum // c43a
+  // c43b
+,
+    // c44
+u8 // c45a
+  // c45b
+tail // c46a
+  // c46b
+, // c47a
+  // c47b
+}
+    // c48
+")).
+Eval vm_compute in ("<<<M1388>>>" ++ check (runes_of_ascii "options {
+    LittleEndian = true;
+    StringPrefixLenType = u32;
+    ArrayPrefixLenType = u8;
+}
+packet Heartbeat {
+    string msgKind,
+}
+packet Logon {
+    repeat Heartbeat,
+    repeat string Px,
+    uint8 Tail,
+    char[] f1,
+}
+packet Cancel {
+    zchar[4] OrderId,
+    Logon,
+    repeat InMsgkind98 {
+        repeat u8 tag7,
+        repeat InFlags69 {
+            char[] Note,
+            char[] lastPx,
+            char[11] Ref,
+            Logon,
+        },
+        repeat Heartbeat,
+    },
+    zchar[7] Px,
+    u32 seqNo,
+}
+root packet Reject {
+    i16 tag7,
+    char[3] Qty,
+    InRef42 {
+        u8 pad0,
+    },
+    uint32 f1,
+    zchar[7] OrderId,
+    zchar[8] x,
+}
+")).
+Eval vm_compute in ("<<<M149>>>" ++ check (runes_of_ascii "options { stringy  =zchar[
+0123456789] }
+    MetaData// trailing space 
+charz{ zchar[
+42 ] calculatedFrom	,
+    // `tick` ""quote"" 'q'
+    char[ 65535 ] // " ++ [27880; 37322]%N ++ runes_of_ascii "
+trueish
+    , float64 // c
+roots
+    `doc`
+,}
+    packet// c
+calculatedFrom // a // b
+{ @calculatedFrom( """ ++ [128512]%N ++ runes_of_ascii """ )string crc `crlf
+line` , MetaDataX { Packet
+@lengthOf( // c
+packetx )`{ , }`, // trailing space 
+repeat trueish As
+    , } ,int64 T,// `tick` ""quote"" 'q'
+match uint8x// trailing space 
+as i64_ {
+00 :
+_x ,
+    65535 :Z9_, ""1"" : u8x
+// c
+// " ++ [27880; 37322]%N ++ runes_of_ascii "
+, 007 : Z9_	, /// triple
+255
+:matchKey ""1"": crc , } ,// " ++ [128512]%N ++ runes_of_ascii " emoji
+} // @lengthOf(")).
+Eval vm_compute in ("<<<M316>>>" ++ check (runes_of_ascii "options
+{ metadata= 10 ;  x= u16// `tick` ""quote"" 'q'
+; matchKey
+    =0
+;	}
+packet MetaDataX	{ i8 u8x `a\`//x
+, u64// 50% %s
+matchKey
+@lengthOf( T ) ,
+    // " ++ [128512]%N ++ runes_of_ascii " emoji
+    char[ 1 // a // b
 ]
+Z9_ ,
+    zchar[
+    7	] MetaDataX @lengthOf(calculatedFrom)	,
+    // @lengthOf(
+    @tag( 10 )
+    repeatCount,string MetaDataX
+    // trailing space 
+    @calculatedFrom(/// triple
+""CRC32""
+) `tab	here`
+// " ++ [27880; 37322]%N ++ runes_of_ascii "
+/// triple
+, u8
+A @lengthOf( charz
+) , }
+packet
+    // packet A { u8 x, }
+    Pad{@leftPad (  ) repeat
+    body
+charz , }
+//x
+")).
+Eval vm_compute in ("<<<M2>>>" ++ check (runes_of_ascii "packet Logon { @lengthOf( leftPad )repeat calculatedFrom { match
+x_y_z
+as Z9_ {
+7 : MetaDataX [
+    /// triple
+    ""a\""b"" , 42 ]:uint8x, 00 :
+// a // b
+//	t
+stringy , // packet A { u8 x, }
+0
+    : leftPad,
+65535
+    : tag ,
+    [ 4294967296 , ""packet""// `tick` ""quote"" 'q'
+, 1,0123456789 , 1
+,""{,}"" , 42
+    ,""abc""] :
+uint8x ,
+}
+    , string
+    rootA `two words` // " ++ [27880; 37322]%N ++ runes_of_ascii "
+,  uint32 A ,char[0 ] T , }
+    ,  @tag(007 )
+    repeat zchar[ 7] f32a//
+`
+` , @lengthOf(T)float32 stringy `two words`, }")).
+Eval vm_compute in ("<<<M58>>>" ++ check (runes_of_ascii "packet o { zchar[ 7 ] /// triple
+f32a@calculatedFrom( ""a\""b"")	, @lengthOf( pack
+)
+    options1 ,@calculatedFrom(""abc""
+)
+    Header , @lengthOf( Logon )zchar[4294967296
+    ] asx // packet A { u8 x, }
+@lengthOf(
+// a // b
+// packet A { u8 x, }
+u )
+`100% of %d`	, @leftPad (' ' // trailing space 
+)	@calculatedFrom( ""`tick`"" )
+uint16 x_y_z`doc` , @tag( 00 )zchar[ //	t
+1 ] // c
+u,@calculatedFrom(""a\""b"" ) //
+u8x uint8x,
+char[1 ]
+metadata , }
+")).
+Eval vm_compute in ("<<<M1387>>>" ++ check (runes_of_ascii "options {
+    LittleEndian = false;
+    StringPrefixLenType = u16;
+    FixedStringPadFromLeft = true;
+    FixedStringPadChar = '0';
+}
+packet Fill {
+}
+root packet Order {
+    repeat Fill,
+    char[] clOrdID,
+    @rightPad('\x00') char[4] lastPx,
+    char[] OrderId,
+    int8 tag7,
+    u8 f1,
+    u16 count @lengthOf(Body),
+    match f1 as Body {
+        [159, 49] : Fill,
+    },
+    u16 Tail @calculatedFrom(""CR\
+C32""),
+}
+")).
+Eval vm_compute in ("<<<M226>>>" ++ check (runes_of_ascii "packet Foo  {
+    char
+pack@calculatedFrom(""CRC32"") `crlf
+line` // " ++ [128512]%N ++ runes_of_ascii " emoji
+,
+@leftPad (
+    )
+    Logon
+, } options
+{ tag  = ' '  msg_type // " ++ [128512]%N ++ runes_of_ascii " emoji
+=  ""// no comment"" ; x_y_z
+=//x
+int32 calculatedFrom =// `tick` ""quote"" 'q'
+string
+; u128= char[]
+} packet BodyLength { char[]
+body @calculatedFrom(
+""" ++ [233]%N ++ runes_of_ascii "t" ++ [233]%N ++ runes_of_ascii """
+    // " ++ [128512]%N ++ runes_of_ascii " emoji
+    )
+    ,	uint16 MetaDataX @calculatedFrom(
+""a	b"" )  ,}
+")).
+Eval vm_compute in ("<<<M1363>>>" ++ check (runes_of_ascii "options {
+    LittleEndian = true;
+    StringPrefixLenType = u32;
+    ArrayPrefixLenType = u64;
+}
+packet Logon {
+    string OrderId,
+    uint32 lastPx,
+    repeat char[6] Side2,
+    i64 Tail,
+    repeat i8 f1,
+}
+packet Party {
+}
+packet Quote {
+    repeat char[6] clOrdID,
+    repeat Logon,
+}
+root packet Order {
+    zchar[5] Acct,
+    repeat f64 price,
+}
+")).
+Eval vm_compute in ("<<<M1902>>>" ++ check (runes_of_ascii "packet A
+	{
+	u8  a, }
+packet B 
+{
 
-:
-	B	,2 :
-C }
+u16
+    b
 ,
 
-} ")).
-Eval vm_compute in ("<<<M1781>>>" ++ check (runes_of_ascii "options {
+}  packet C
+
+{
+
+u32
+
+c 
+, 
+}
+root 
+packet
+M 
+{
+    u16
+
+Kc
+	, u16
+    Kb 
+,
+	u16	Ka, match
+
+    Kc
+
+    as
+    X  {
+	9:
+A
+,
+
+    10:
+B  ,
+	} ,
+match Kb
+
+    as Y	{ 
+2 :C
+
+,
+1
+:	A  , }	,
+    match
+Ka as 
+Z
+	{  1:
+    B
+
+, },  A
+
+,
+
+    B
+
+    ,	C, } ")).
+Eval vm_compute in ("<<<M1399>>>" ++ check (runes_of_ascii "  options
+
+    {LittleEndian =
+
+    true	;  }packet
+	Sub  {u8 a
+	, u16  SubSum @calculatedFrom(
+	""CRC16"" ) ,
+
+    }
+	root
+
+packet
+    Frame {u16
+MsgType,u16 BodyLen	@lengthOf(Body ) ,
+    Sub Body ,
+string
+note , 
+u16 Checksum
+
+    @calculatedFrom( ""CRC16"" )
+,u8  tail,
+	}
+")).
+Eval vm_compute in ("<<<M55>>>" ++ check (runes_of_ascii "MetaData // @lengthOf(
+calculatedFrom { /// triple
+matchKey packetx
+    , float32 u128 ,// `tick` ""quote"" 'q'
+}
+    MetaData uint8x { //	t
+zchar[ 65535
+]As
+    `` ,char[ 255] T
+`doc` ,zchar[// " ++ [128512]%N ++ runes_of_ascii " emoji
+255] int  , float64 i64_ //
+`tab	here` ,char[]  len , }
+")).
+Eval vm_compute in ("<<<M474>>>" ++ check (runes_of_ascii "packet
+    asx { @calculatedFrom(
+""""  ) @tag( 255 )repeat
+// packet A { u8 x, }
+// trailing space 
+int16 u8x
+,
+@tag(
+    //
+    007 )
+    @tag( uint32
+    /// triple
+    ) @tag( 1) u
+    @lengthOf( T ),
+// `tick` ""quote"" 'q'
+//x
+} // " ++ [128512]%N ++ runes_of_ascii " emoji")).
+Eval vm_compute in ("<<<M423>>>" ++ check (runes_of_ascii "packet
+    asx { @calculatedFrom(
+""""  ) @tag( ) 255 repeat
+// packet A { u8 x, }
+// trailing space 
+int16 u8x
+,
+@tag(
+    //
+    007 )
+    @tag( 0
+    /// triple
+    ) @tag( 1) u
+    @lengthOf( T ),
+// `tick` ""quote"" 'q'
+//x
+} // " ++ [128512]%N ++ runes_of_ascii " emoji")).
+Eval vm_compute in ("<<<M464>>>" ++ check (runes_of_ascii "packet
+    asx { @calculatedFrom(
+""""  ) @tag( 255 )repeat
+// packet A { u8 x, }
+// trailing space 
+int16 u8x
+,
+@tag(
+    //
+    007 [
+    @tag( 0
+    /// triple
+    ) @tag( 1) u
+    @lengthOf( T ),
+// `tick` ""quote"" 'q'
+//x
+} // " ++ [128512]%N ++ runes_of_ascii " emoji")).
+Eval vm_compute in ("<<<M516>>>" ++ check (runes_of_ascii "packet
+    asx { @calculatedFrom(
+""""  ) @tag( 255 )repeat
+// packet A { u8 x, }
+// trailing space 
+int16 u8x
+,
+@tag(
+    //
+    007 )
+    @tag( 0
+    /// triple
+    ) @tag( 1) u
+    @lengthOf( T )
+// `tick` ""quote"" 'q'
+//x
+} // " ++ [128512]%N ++ runes_of_ascii " emoji")).
+Eval vm_compute in ("<<<M321>>>" ++ check (runes_of_ascii "packet //x
+roots {
+    @rightPad
+    (	'\x00') @lengthOf(  calculatedFrom
+)	asx
+zchar	,char[255] charz // " ++ [27880; 37322]%N ++ runes_of_ascii "
+`" ++ [233]%N ++ runes_of_ascii "`
+//	t
+// 50% %s
+, @tag(	1 )
+repeat MetaDataX, repeat
+zchar[ 0] BodyLength  `a\`
+, } MetaData string_ { } 	 ")).
+Eval vm_compute in ("<<<M524>>>" ++ check (runes_of_ascii "packet
+    asx { @calculatedFrom(
+""""  ) @tag( 255 )repeat
+// packet A { u8 x, }
+// trailing space 
+int16 u8x
+,
+@tag(
+    //
+    007 )
+    @tag( 0
+    /// triple
+    ) @tag( 1) u
+    @lengthOf( T ),")).
+Eval vm_compute in ("<<<M1659>>>" ++ check (runes_of_ascii "packet u8x {
+    char[] f32a @lengthOf(Foo) `100% of %d`,
+    repeat i8i8 {
+        A f32a,
+        x `say ""hi""`,
+        // @lengthOf(
+        repeat body rootA `
+        `,
+    },
+}")).
+Eval vm_compute in ("<<<M564>>>" ++ check (runes_of_ascii "MetaData u
+    { @rightPad MetaData o
+{ float uint8x
+`100% of %d` ,repeatCount u8x, string_ leftPad
+, i32
+    Foo , int64 x `two words` , calculatedFrom
+stringy `a\` ,
+}
+")).
+Eval vm_compute in ("<<<M708>>>" ++ check (runes_of_ascii "MetaData u
+    { } MetaData o
+{ float uint8x
+`100% of %d` ,repeatCount u8x, string_ leftPad
+, i32
+    Foo , int64 " ++ [252]%N ++ runes_of_ascii "ber `two words` , calculatedFrom
+stringy `a\` ,
+}
+")).
+Eval vm_compute in ("<<<M704>>>" ++ check (runes_of_ascii "MetaData u
+    { } MetaData o
+{ float uint8x
+`100% of %d` ,repeatCount u8x, string_ leftPad
+, i32
+    " ++ [8232]%N ++ runes_of_ascii "Foo , int64 x `two words` , calculatedFrom
+stringy `a\` ,
+}
+")).
+Eval vm_compute in ("<<<M653>>>" ++ check (runes_of_ascii "MetaData u
+    { } MetaData o
+{ float uint8x
+`100% of %d` ,repeatCount u8x, string_ leftPad
+, i32
+    Foo , int64 `two words` x , calculatedFrom
+stringy `a\` ,
+}
+")).
+Eval vm_compute in ("<<<M606>>>" ++ check (runes_of_ascii "MetaData u
+    { } MetaData o
+{ float uint8x
+`100% of %d` ,repeatCount , string_ leftPad
+, i32
+    Foo , int64 x `two words` , calculatedFrom
+stringy `a\` ,
+}
+")).
+Eval vm_compute in ("<<<M604>>>" ++ check (runes_of_ascii "MetaData u
+    { } MetaData o
+{ float uint8x
+`100% of %d` ,u64 u8x, string_ leftPad
+, i32
+    Foo , int64 x `two words` , calculatedFrom
+stringy `a\` ,
+}
+")).
+Eval vm_compute in ("<<<M1584>>>" ++ check (runes_of_ascii "packet A {
+    Inner {
+        u8 x `tab
+                	x`,
+        Deep {
+            u8 y `tab
+                        	x`,
+        },
+    },
+}")).
+Eval vm_compute in ("<<<M1498>>>" ++ check (runes_of_ascii "
+packet A	{ match
+k	as
+
+n
+{
+[
+    ""a""
+,
+""bb""
+
+, 007
+
+    , ""d""  ,
+	""e"" ,
+
+66
+, ""g"", ""h""	,
+
+9
+	,	""j"",
+
+""k""  , 12]	:	B 2	:C 
+}
+
+,  } ")).
+Eval vm_compute in ("<<<M1708>>>" ++ check (runes_of_ascii "options {
 }
 
 options {
@@ -1000,160 +909,151 @@ options {
 }
 
 MetaData Pad {
-    i8 metadata,// c
+    i8 metadata,
     string stringy,
     int8 As `{ , }`,
+    // c
 }")).
-Eval vm_compute in ("<<<M904>>>" ++ check (runes_of_ascii "packet A {
-  match k as n {
-    [""a"", ""bb"", ""c c"", ""d"", ""e"", ""f"", ""g"", ""h"", ""i"", ""j"", ""k"", ""l""] : B,
-    2 : C
-  },
+Eval vm_compute in ("<<<M1450>>>" ++ check (runes_of_ascii "packet A {
+    Inner {
+        u8 x `a
+        b`,
+        Deep {
+            u8 y `a
+            b`,
+        },
+    },
 }")).
-Eval vm_compute in ("<<<M1212>>>" ++ check (runes_of_ascii "options { } options {
-// c
-MetaDataX = char ; } MetaData Pad { i8 metadata , string stringy , int8 As `{ , }` , }")).
-Eval vm_compute in ("<<<M1244>>>" ++ check (runes_of_ascii "options { } options { MetaDataX = char ; } MetaData Pad { i8 metadata , string stringy , int8 As
-// c
-`{ , }` , }")).
-Eval vm_compute in ("<<<M900>>>" ++ check (runes_of_ascii "packet A {
-  match k as n {
-    [""a"", ""bb"", 007, ""d"", ""e"", 66, ""g"", ""h"", 9, ""j"", ""k""] : B
-    2 : C
-  },
+Eval vm_compute in ("<<<M1203>>>" ++ check (runes_of_ascii "options // c
+{ } options { MetaDataX = char ; } MetaData Pad { i8 metadata , string stringy , int8 As `{ , }` , }")).
+Eval vm_compute in ("<<<M1235>>>" ++ check (runes_of_ascii "options { } options { MetaDataX = char ; } MetaData Pad { i8 metadata , string // c
+stringy , int8 As `{ , }` , }")).
+Eval vm_compute in ("<<<M650>>>" ++ check (runes_of_ascii "MetaData u
+    { } MetaData o
+{ float uint8x
+`100% of %d` ,repeatCount u8x, string_ leftPad
+, i32
+    Foo ,")).
+Eval vm_compute in ("<<<M924>>>" ++ check (runes_of_ascii "packet A {
+    Inner {
+        u8 x `a
+b`,
+        Deep {
+            u8 y `a
+b`,
+        },
+    },
 }")).
-Eval vm_compute in ("<<<M886>>>" ++ check (runes_of_ascii "packet A {
-  match k as n {
-    [""a"", ""bb"", 007, ""d"", ""e"", 66, ""g"", ""h"", 9, ""j""] : B,
-    2 : C
-  },
-}")).
-Eval vm_compute in ("<<<M1625>>>" ++ check (runes_of_ascii "MetaData matchKey {
-    i64 float `crlf
-        line`,//	t
-    leftPad asx,
-    uint8x leftPad,
-}")).
-Eval vm_compute in ("<<<M1775>>>" ++ check (runes_of_ascii "
-// top
-
-root 
-    // c0
-	packet  
-      // c1
-  	a1 
-
-// c2
-    {
-    // c3
-}
-    // c4
+Eval vm_compute in ("<<<M62>>>" ++ check (runes_of_ascii "
+options
+    { calculatedFrom
+    =  int8 ;
+metadata
+=string ; Logon =
+    int8 //
+Foo = 42 ; }
 ")).
-Eval vm_compute in ("<<<M750>>>" ++ check (runes_of_ascii "a1 ""// no comment"" ' ' uint8 0 repeat char[ string MetaData ""`tick`"" uint64 00 char @tag(")).
+Eval vm_compute in ("<<<M860>>>" ++ check (runes_of_ascii "packet A {
+  match k as n {
+    [""a"", ""bb"", 007, ""d"", ""e"", 66, ""g"", ""h""] : B,
+    2 : C
+  },
+}")).
+Eval vm_compute in ("<<<M871>>>" ++ check (runes_of_ascii "packet A {
+  match k as n {
+    [1, 22, ""c c"", 4, 5, ""f"", 7, 8, ""i""] : B,
+    2 : C
+  },
+}")).
 Eval vm_compute in ("<<<M858>>>" ++ check (runes_of_ascii "packet A {
   match k as n {
     [1, 22, ""c c"", 4, 5, ""f"", 7, 8] : B,
     2 : C
   },
 }")).
-Eval vm_compute in ("<<<M1639>>>" ++ check (runes_of_ascii "
-
-  packet  _x
-{	}
-    root
-	packet 
-leftPad {	} 
-options{Pad
-=
-
-    string;}
-
-")).
-Eval vm_compute in ("<<<M800>>>" ++ check (runes_of_ascii "packet A {
+Eval vm_compute in ("<<<M845>>>" ++ check (runes_of_ascii "packet A {
   match k as n {
-    [""a"", ""bb"", ""c c"", ""d""] : B,
+    [1, 22, ""c c"", 4, 5, ""f"", 7] : B,
     2 : C
   },
 }")).
-Eval vm_compute in ("<<<M1957>>>" ++ check (runes_of_ascii "
-MetaData
-
-u128
-{
-
-matchKey i64_
-,
-BodyLength 
-T  , msg_type
-body
-	,
+Eval vm_compute in ("<<<M833>>>" ++ check (runes_of_ascii "packet A {
+  match k as n {
+    [1, 22, ""c c"", 4, 5, ""f""] : B
+    2 : C
+  },
+}")).
+Eval vm_compute in ("<<<M1260>>>" ++ check (runes_of_ascii "packet Inner {
+    u8 a,
+}
+root packet P {
+    Inner ref_obj,
+    u8 x,
 }
 ")).
-Eval vm_compute in ("<<<M875>>>" ++ check (runes_of_ascii "packet A { Inner { match k as n { [1,22,007,4,5,66,7,8,9] : B, }, }, }")).
-Eval vm_compute in ("<<<M1617>>>" ++ check (runes_of_ascii "root packet P {
+Eval vm_compute in ("<<<M807>>>" ++ check (runes_of_ascii "packet A {
+  match k as n {
+    [1, 22, ""c c"", 4] : B
+    2 : C
+  },
+}")).
+Eval vm_compute in ("<<<M1686>>>" ++ check (runes_of_ascii "root packet P {
     u16 a,
     u32 Sum @calculatedFrom(""CRC32""),
 }")).
-Eval vm_compute in ("<<<M946>>>" ++ check (runes_of_ascii "packet A {
-    B b `x
-`,
-    B `x
-`,
-    repeat B bs `x
-`,
+Eval vm_compute in ("<<<M777>>>" ++ check (runes_of_ascii "packet A {
+  match k as n {
+    [1, 22] : B
+    2 : C
+  },
 }")).
-Eval vm_compute in ("<<<M1648>>>" ++ check (runes_of_ascii "
-MetaData
-	M 
-{
-u8	x  `x
-`
-    ,
-T	t
-
-`x
-`
-
-    ,
+Eval vm_compute in ("<<<M1557>>>" ++ check (runes_of_ascii "
+// `tick` ""quote"" 'q'
+		options	{f32a
+    = uint16
 	}
 ")).
-Eval vm_compute in ("<<<M775>>>" ++ check (runes_of_ascii "packet A { Inner { match k as n { [1] : B, }, }, }")).
-Eval vm_compute in ("<<<M1162>>>" ++ check (runes_of_ascii "// top
-packet // c0
-x // c1
-{ // c2
-} // c3
+Eval vm_compute in ("<<<M979>>>" ++ check (runes_of_ascii "MetaData M {
+    u8 x `%%d%!`,
+    T t `%%d%!`,
+}")).
+Eval vm_compute in ("<<<M949>>>" ++ check (runes_of_ascii "MetaData M {
+    u8 x `x
+`,
+    T t `x
+`,
+}")).
+Eval vm_compute in ("<<<M155>>>" ++ check (runes_of_ascii "options {stringy =
+i64 ; float = '0' }")).
+Eval vm_compute in ("<<<M1186>>>" ++ check (runes_of_ascii "options {
+// c
+A = ""// no comment"" }")).
+Eval vm_compute in ("<<<M1978>>>" ++ check (runes_of_ascii "packet A {
+    u8 x `
+        `,
+}")).
+Eval vm_compute in ("<<<M974>>>" ++ check (runes_of_ascii "root packet A {
+    u8 x `%`,
+}")).
+Eval vm_compute in ("<<<M183>>>" ++ check (runes_of_ascii "  packet len { repeat A , }
 ")).
-Eval vm_compute in ("<<<M1439>>>" ++ check (runes_of_ascii "options {
-    A = ""// no comment""
-}
-// c")).
-Eval vm_compute in ("<<<M1100>>>" ++ check (runes_of_ascii "options { a = 1; // a
- b = 2 // b
- }")).
-Eval vm_compute in ("<<<M1569>>>" ++ check (runes_of_ascii "  packet
+Eval vm_compute in ("<<<M324>>>" ++ check (runes_of_ascii "packet
+BodyLength { }
 
-    A
-    {
-}  // c" ++ [12288]%N ++ runes_of_ascii "
 ")).
-Eval vm_compute in ("<<<M997>>>" ++ check (runes_of_ascii "packet A {
- u8 x `d `, // c 
-}")).
-Eval vm_compute in ("<<<M1525>>>" ++ check (runes_of_ascii "packet len {
-    repeat A,
-}")).
-Eval vm_compute in ("<<<M1151>>>" ++ check (runes_of_ascii "root packet a1 { } // c
+Eval vm_compute in ("<<<M1741>>>" ++ check (runes_of_ascii "// c" ++ [8192]%N ++ runes_of_ascii "
+  packet 
+A{ }
 ")).
-Eval vm_compute in ("<<<M1122>>>" ++ check (runes_of_ascii "// c
-MetaData tag { }")).
-Eval vm_compute in ("<<<M1015>>>" ++ check (runes_of_ascii "packet A {
-}
-// c" ++ [5760]%N)).
-Eval vm_compute in ("<<<M285>>>" ++ check (runes_of_ascii "packet rootA
-{  }")).
-Eval vm_compute in ("<<<M405>>>" ++ check (runes_of_ascii "packet
-    asx {")).
-Eval vm_compute in ("<<<M760>>>" ++ check (runes_of_ascii "V]kUb{")).
-Eval vm_compute in ("<<<M39>>>" ++ check (runes_of_ascii "
+Eval vm_compute in ("<<<M1011>>>" ++ check (runes_of_ascii "// c" ++ [133]%N ++ runes_of_ascii "
+packet A {
+}")).
+Eval vm_compute in ("<<<M1484>>>" ++ check (runes_of_ascii "root packet a1 {
+}")).
+Eval vm_compute in ("<<<M299>>>" ++ check (runes_of_ascii "packet	zchar	{}
+")).
+Eval vm_compute in ("<<<M1684>>>" ++ check (runes_of_ascii "// c" ++ [133]%N ++ runes_of_ascii "
+ 
+")).
+Eval vm_compute in ("<<<M1849>>>" ++ check (runes_of_ascii "//
 ")).
